@@ -843,7 +843,10 @@ class FunctionBuilder:
         if inspect.iscoroutinefunction(func):
             kwargs['is_async'] = True
 
-        return cls(**kwargs)
+        ret = cls(**kwargs)
+        if kwargs['doc'] is None:
+            ret.doc = None  # no docstring stays no docstring (not '')
+        return ret
 
     def get_func(self, execdict=None, add_source=True, with_dict=True):
         """Compile and return a new function based on the current values of
